@@ -74,6 +74,14 @@ def to_units(arr, grids) -> list[list[int]]:
     return out
 
 
+def to_units_nearest(arr, grids) -> list[list[int]]:
+    """doubled index of the grid element nearest to every entry (histories may hold points that are next to the grid)"""
+    out = []
+    for row in np.atleast_2d(arr):
+        out.append([2 * int(np.argmin(np.abs(np.asarray(grids[d], dtype=float) - float(x)))) for d, x in enumerate(row)])
+    return out
+
+
 def sha(*arrays) -> str:
     m = hashlib.sha256()
     for a in arrays:
@@ -88,8 +96,24 @@ def dense_rank(values) -> list[int]:
     return [pos[float(v)] for v in values]
 
 
-def history(space, n: int, rng: random.Random, extreme: bool = False, pair: bool = False):
-    pts = np.array([[float(g[rng.randrange(len(g))]) for g in space.param_grid] for _ in range(n)], dtype=float).reshape(n, space.dims)
+def history(space, n: int, rng: random.Random, extreme: bool = False, pair: bool = False, typed: str | None = None):
+    grids = [np.asarray(g, dtype=float) for g in space.param_grid]
+    dt = float
+    if typed == "int":          # a history held as integers (possible where every parameter has integer-valued grid elements)
+        cand = [g[g == np.round(g)] for g in grids]
+        if all(len(c) and np.all(np.abs(c) < 2**40) for c in cand):
+            grids, dt = cand, np.int64
+    elif typed == "f32":        # ... or in single precision
+        cand = [g[g.astype(np.float32).astype(float) == g] for g in grids]
+        if all(len(c) for c in cand):
+            grids, dt = cand, np.float32
+    pts = np.array([[float(g[rng.randrange(len(g))]) for g in grids] for _ in range(n)], dtype=float).reshape(n, space.dims).astype(dt)
+    if pair and dt is float and rng.random() < 0.35:
+        # points as a user may write them (0.07 rather than the seventh element of np.arange): next to a grid element, not on it
+        for i in range(n):
+            for d in range(space.dims):
+                if rng.random() < 0.5:
+                    pts[i, d] = np.nextafter(pts[i, d], rng.choice([-np.inf, np.inf]))
     vals = [rng.choice([0.5, 1.0, 1.0, 2.5, 0.25, 3.75]) * rng.choice([1, 1, 2]) for _ in range(n)]      # ties
     if extreme and n:
         for _ in range(max(1, n // 3)):
@@ -102,7 +126,7 @@ def history(space, n: int, rng: random.Random, extreme: bool = False, pair: bool
     return pts, np.array(vals, dtype=float)
 
 
-def run_calls(name: str, bounds, prec, rem, bs: int, seed: int, ncalls: int, rng: random.Random, *, extreme=False, watch=False):
+def run_calls(name: str, bounds, prec, rem, bs: int, seed: int, ncalls: int, rng: random.Random, *, extreme=False, watch=False, force_typed=None):
     """successive sample() calls on ONE sampler object with the history growing like in a calibration; returns events"""
     from black_it.search_space import SearchSpace
 
@@ -117,8 +141,10 @@ def run_calls(name: str, bounds, prec, rem, bs: int, seed: int, ncalls: int, rng
         # (the pool -> predictions -> selection of ONE sample_batch call is observed: no deduplication redraws then)
         s, kw = make(name, bs, seed, rng, single_pass=watch and name in ("RandomForestSampler", "XGBoostSampler", "GaussianProcessSampler"))
         n0 = max(bs, 3) + rng.randint(0, 4)
+        typed = rng.choice([None, None, "int", "f32"]) if name in ("BestBatchSampler", "ParticleSwarmSampler", "XGBoostSampler") else None
+        typed = force_typed or typed
         pts, losses = history(space, n0, rng, extreme and name not in ("GaussianProcessSampler", "RandomForestSampler", "CORSSampler"),
-                              pair=name == "BestBatchSampler")
+                              pair=name == "BestBatchSampler", typed=typed)
         if extreme and name in ("GaussianProcessSampler", "RandomForestSampler", "CORSSampler"):
             # finite extremes, and now and then an infinite one (these samplers may refuse it: then the history must be intact)
             losses[rng.randrange(len(losses))] = rng.choice([1e39, 1e300, -1e39, float("inf")])
@@ -155,11 +181,11 @@ def run_calls(name: str, bounds, prec, rem, bs: int, seed: int, ncalls: int, rng
             ev = {"e": "sample", "cls": name, "bs": bs, "g": g, "rem": rem, "rows": int(out.shape[0]) if out.ndim == 2 else -1, "inbounds": inb,
                   "cols": int(out.shape[1]) if out.ndim == 2 else -1, "idx": to_units(out, grids) if out.ndim == 2 else [],
                   "histsame": bool(same), "call": c, "kw": _kw(kw), "bounds": bounds, "prec": prec, "seed": seed, "extreme": extreme,
-                  "raw": out.tolist() if out.size <= 24 else None}
+                  "raw": out.tolist() if out.size <= 24 else None, "typed": typed}
             events.append(ev)
             if name == "BestBatchSampler":
                 events.append({"e": "bestbatch", "bs": bs, "range": kw["perturbation_range"], "g": g, "rem": rem,
-                               "hist": to_units(keep_p, grids), "rank": dense_rank(keep_l), "out": to_units(out, grids),
+                               "hist": to_units_nearest(keep_p, grids), "rank": dense_rank(keep_l), "out": to_units(out, grids),
                                "bounds": bounds, "prec": prec, "seed": seed, "kw": _kw(kw)})
             if watch and "pred" in spy:
                 pool, pred = spy["pool"], spy["pred"]
@@ -173,7 +199,7 @@ def run_calls(name: str, bounds, prec, rem, bs: int, seed: int, ncalls: int, rng
             # the calibrator appends the batch and its losses - or (a sampler object reused on another history, losses recomputed)
             # the next call sees a different history of the very same shape
             if c % 2 == 1 and name not in ("ParticleSwarmSampler",):
-                pts, losses = history(space, len(pts), rng, extreme and name == "BestBatchSampler", pair=True)
+                pts, losses = history(space, len(pts), rng, extreme and name == "BestBatchSampler", pair=True, typed=typed)
             elif out.ndim == 2 and out.shape[1] == pts.shape[1]:
                 pts = np.vstack([pts, out])
                 losses = np.concatenate([losses, [rng.choice([0.5, 1.0, 2.0, 0.125]) for _ in range(len(out))]])
@@ -203,7 +229,7 @@ def _worker(args):
     for j in jobs:
         rng = random.Random(j["rseed"])
         out.append(run_calls(j["name"], j["bounds"], j["prec"], j["rem"], j["bs"], j["seed"], j["ncalls"], rng,
-                             extreme=j.get("extreme", False), watch=j.get("watch", False)))
+                             extreme=j.get("extreme", False), watch=j.get("watch", False), force_typed=j.get("typed")))
     common.shutdown_loky()
     return out
 
